@@ -34,6 +34,7 @@ func genLocks(repo string) (string, error) {
 			continue
 		}
 		f, err := parser.ParseFile(fset, filepath.Join(dir, n), nil, 0)
+		normalizeFile(f)
 		if err != nil {
 			return "", err
 		}
